@@ -8,6 +8,9 @@ extern "C" size_t verif_index(size_t);
 inline size_t VerifIndex::at(const size_t& s) const { return verif_index(s); }
 inline size_t VerifIndex::operator()(const size_t& s) const { return verif_index(s); }
 inline size_t VerifIndex::operator[](const size_t& s) const { return verif_index(s); }
+struct VerifSym { size_t operator()(const size_t& s) const; };
+extern "C" size_t verif_sym(size_t);
+inline size_t VerifSym::operator()(const size_t& s) const { return verif_sym(s); }
 void* verif_sink[64];
 void verif_force(A& a, A& b, VerifIndex& ix, const A::StateTuple& t, const size_t& sym, const size_t& st)
 {
@@ -16,6 +19,7 @@ void verif_force(A& a, A& b, VerifIndex& ix, const A::StateTuple& t, const size_
   a.AddTransition(t, sym, st); verif_sink[i++] = (void*)(size_t)a.ContainsTransition(t, sym, st); verif_sink[i++] = (void*)(size_t)a.AreTransitionsEmpty();
   a.ReindexStates(b, ix, true);
   { A r1 = a.ReindexStates(ix, true); A r2 = a.CollapseStates(ix); verif_sink[i++] = (void*)&r1; verif_sink[i++] = (void*)&r2; }
+  { VerifSym sy; A r3 = a.TranslateSymbols(sy); verif_sink[i++] = (void*)&r3; }
   A c(a); c = b; A d(std::move(c)); d = std::move(a);
   a.SetStateFinal(st); verif_sink[i++] = (void*)(size_t)a.IsStateFinal(st); a.EraseFinalStates();
   a.uniqueClusterMap()->uniqueCluster(st)->uniqueTuplePtrSet(sym);
